@@ -18,7 +18,7 @@ func runC27(c *mon.Ctx) {
 	c.Assume("porcupine v1.3.0 checker; history intervals are boundary events on one logical clock")
 	installHook()
 	tt := newTotals()
-	n := c.N(2400, 50000)
+	n := c.N(2400, 40000)
 	for i := 0; i < n; i++ {
 		if !randomSchedule(c, tt, i, true, 0) {
 			break
@@ -52,7 +52,7 @@ func runC28(c *mon.Ctx) {
 	tt := newTotals()
 	ws := windows()
 	c.Set("scripted_windows", len(ws))
-	for round := 0; round < c.N(3, 40); round++ {
+	for round := 0; round < c.N(3, 30); round++ {
 		for wi, win := range ws {
 			for max := 1; max <= 3; max++ {
 				if max < win.min {
@@ -65,7 +65,7 @@ func runC28(c *mon.Ctx) {
 			}
 		}
 	}
-	n := c.N(1600, 36000)
+	n := c.N(1600, 30000)
 	for i := 0; i < n; i++ {
 		if !randomSchedule(c, tt, i, false, 10) {
 			break
